@@ -97,10 +97,50 @@ def _all_suits_domain(F, fn, lp):
     return vals is not None and sorted(str(v) for v in vals) == sorted(SUITS)
 
 
+def _suits_table_order(F, src):
+    """the suits of a constant table / literal array in their order, else None"""
+    s = P.strip(src, calls=False)
+    while s[0] == "cast" and s[1] == "PointerCoercion":
+        s = P.strip(s[2], calls=False)
+    if s[0] == "named":
+        v = F.const_value(s[1])
+        if v and "array" in v and all(isinstance(e, str) for e in v["array"]):
+            return list(v["array"])
+    return None
+
+
+_AFTER = {}     # inner loop header -> (outer loop header, table order): the inner loop walks TABLE[i + 1..], i the outer position
+
+
 def suit_loop(F, fn, pr, fl, bi, su):
+    st = P.strip(su)
     for lp in fl:
-        if bi in lp.body and P.strip(su) == P.strip(lp.item_term) and _all_suits_domain(F, fn, lp):
+        if bi not in lp.body:
+            continue
+        item = P.strip(lp.item_term)
+        src, chain = lp.chain()
+        names = [c.rsplit("::", 1)[-1] for c in chain if c.rsplit("::", 1)[-1] != "into_iter"]
+        if st == item and _all_suits_domain(F, fn, lp):
             return lp
+        # `for (i, &left) in SUITS.iter().enumerate()`: the item's second component over all suits
+        if names == ["iter", "enumerate"] and st == ("field", item, 1) and sorted(_suits_table_order(F, src) or []) == sorted(SUITS):
+            return lp
+        # `for &right in &SUITS[i + 1..]`, i the position of an enclosing enumerate loop over the same table: the suits after it
+        if st == item and names in ([], ["iter"]):
+            s0 = P.strip(src, calls=False)
+            if s0[0] == "call" and s0[1].endswith("::index") and len(s0[2]) == 2:
+                order = _suits_table_order(F, s0[2][0])
+                rng = P.strip(s0[2][1], calls=False)
+                if order and sorted(order) == sorted(SUITS) and rng[0] == "agg" and rng[1].endswith("RangeFrom::RangeFrom") and len(rng[2]) == 1:
+                    stt = P.strip(rng[2][0])
+                    if stt[0] == "bin" and stt[1] == "Add" and P.const_int(stt[3]) == 1:
+                        for outer in fl:
+                            if outer is not lp and lp.header in outer.body and P.strip(stt[2]) == ("field", P.strip(outer.item_term), 0):
+                                o_src, o_chain = outer.chain()
+                                o_names = [c.rsplit("::", 1)[-1] for c in o_chain if c.rsplit("::", 1)[-1] != "into_iter"]
+                                if o_names == ["iter", "enumerate"] and _suits_table_order(F, o_src) == order:
+                                    _AFTER[(fn.path, lp.header)] = (outer.header, order)
+                                    return lp
     return None
 
 
@@ -112,7 +152,8 @@ def _pushed_into_returned_vec(fn, pr, loop, bi, t):
         return False
     vec = P.strip(pr.operand(fn.blocks[pushed[0]]["term"]["args"][0]), calls=False)
     rets = [P.strip(a, calls=False) for a in P.alts(pr.local(0))]
-    return any(r[0] == "call" and r[1].rsplit("::", 1)[-1] == "into_iter" and r[2] and P.strip(r[2][0], calls=False) == vec for r in rets)
+    return any(r[0] == "call" and r[1].rsplit("::", 1)[-1] == "into_iter" and r[2] and
+               any(P.strip(x, calls=False) == vec for x in P.alts(P.strip(r[2][0], calls=False))) for r in rets)
 
 
 def selected_table_form(F, fn, pr, fl, bi, t):
@@ -228,13 +269,20 @@ def expand_comprehension(F, fn, pr, fl, bi, t, cards):
         raise Unrecognised("combos", "the combo built in the loop is not pushed exactly once per iteration", fn.path, fn.line)
     vec = P.strip(pr.operand(fn.blocks[pushed[0]]["term"]["args"][0]), calls=False)
     rets = [P.strip(a, calls=False) for a in P.alts(pr.local(0))]
-    if not any(r[0] == "call" and r[1].rsplit("::", 1)[-1] == "into_iter" and r[2] and P.strip(r[2][0], calls=False) == vec for r in rets):
+    if not any(r[0] == "call" and r[1].rsplit("::", 1)[-1] == "into_iter" and r[2] and
+               any(P.strip(x, calls=False) == vec for x in P.alts(P.strip(r[2][0], calls=False))) for r in rets):
         raise Unrecognised("combos", "the vector the loop fills is not the one the arm iterates", fn.path, fn.line)
     hs = sorted(loops)
     out = []
     import itertools
+    after = {h: _AFTER[(fn.path, h)] for h in hs if (fn.path, h) in _AFTER}
+    for h, (oh, order) in after.items():
+        if oh not in loops:
+            raise Unrecognised("combos", "a suit loop over the suits after another loop's position, whose suit is not part of the combo", fn.path, fn.line)
     for assign in itertools.product(SUITS, repeat=len(hs)):
         env = dict(zip(hs, assign))
+        if any(order.index(env[h]) <= order.index(env[oh]) for h, (oh, order) in after.items()):
+            continue
         if all((env[a] == env[b_]) == (op == "Eq") for op, a, b_ in rels):
             out.append(tuple((k, env[sn[1]] if isinstance(sn, tuple) else sn) for k, sn in cards))
     return out
